@@ -39,8 +39,9 @@ FAULTS = (["undefined:" + s for s in UNDEF_SLOTS]
              "mode:in-range-loop"]
           + ["complex:int-scalar-literal", "complex:float-scalar-literal", "complex:float-scalar-computed", "complex:int-scalar-computed",
              "complex:float-array-literal", "complex:float-array-computed", "complex:int-array-computed", "complex:via-variable"]
-          + ["complex:float-scalar-zero-imag", "complex:int-array-zero-imag"]
-          + ["looptype:str-in-int", "looptype:float-in-int", "looptype:str-in-float", "looptype:int-in-str", "looptype:near-integer-in-int"]
+          + ["complex:float-scalar-zero-imag", "complex:int-array-zero-imag", "complex:array-with-parameter-computed", "complex:array-to-real-scalar"]
+          + ["looptype:str-in-int", "looptype:float-in-int", "looptype:str-in-float", "looptype:int-in-str", "looptype:near-integer-in-int",
+             "looptype:complex-literal", "looptype:complex-computed", "looptype:complex-zero-imag"]
           + ["include:arity", "include:keywords", "undefined:name-declared-in-included-file"])
 REQUIRED_TAGS = ["fault:" + f for f in FAULTS]
 EXPECT = {"undefined": "undefined", "reserved": "reserved-name", "mode": "mode-type", "complex": "complex-to-real", "looptype": "loop-type"}
@@ -174,6 +175,15 @@ def inject(rng, g, fault):
             new = "%s %s = %s" % (rng.choice(["float", "int"]), nm, rng.choice(["1j*1j", "(2+1j)*(2-1j)", "(1+2j) - 2j", "1j**2", "2j/1j", "(3+0j)*2"]))
         elif slot == "int-array-zero-imag":
             new = "%s array %s =\n    1, %s" % (rng.choice(["float", "int"]), nm, rng.choice(["1j*1j", "(2+1j)*(2-1j)", "1j**2", "(1+2j) - 2j"]))
+        elif slot == "array-with-parameter-computed":
+            # a bare template parameter next to a computed complex value (the array is stored with object dtype)
+            cv = rng.choice(["1j*1j", "(1+2j)*2", "2j + 1", "1j**2", "(2+1j)*(2-1j)"])
+            pn = G.ident()
+            body = rng.choice(["{%s}, %s" % (pn, cv), "%s, {%s}" % (cv, pn), "1, {%s}\n    %s, 2" % (pn, cv)])
+            new = "%s array %s =\n    %s" % (rng.choice(["float", "int"]), nm, body)
+        elif slot == "array-to-real-scalar":
+            # a whole complex array as initialiser of an int or float variable
+            new = "complex array %s =\n    %s\n%s %s = %s" % (nm, rng.choice(["1j, 2", "1+2j, 3\n    0.5, 2j", "2, 3-1j"]), rng.choice(["int", "float"]), G.ident(), nm)
         elif slot == "via-variable":
             new = "complex %s = 1+1j\n%s %s = %s*1" % (nm, rng.choice(["int", "float"]), G.ident(), nm)
     elif cls == "looptype":
@@ -186,6 +196,13 @@ def inject(rng, g, fault):
             new = 'for float %s in ["x", 0.5]\n    G(%s) | 0' % (v, v)
         elif slot == "int-in-str":
             new = 'for str %s in "a", 3\n    G(%s) | 0' % (v, v)
+        elif slot == "complex-literal":
+            new = "for %s %s in [%s]\n    G(%s) | 0" % (rng.choice(["int", "float"]), v, rng.choice(["1, 1+2j", "2j", "3, 0.5-1j, 2", "1+0j"]), v)
+        elif slot == "complex-computed":
+            new = "for %s %s in [%s]\n    G(%s) | 0" % (rng.choice(["int", "float"]), v, rng.choice(["1, (1+2j)*2", "2j*2", "3, 2j + 1", "1j**3, 2"]), v)
+        elif slot == "complex-zero-imag":
+            # complex-typed values whose imaginary part happens to be zero
+            new = "for %s %s in [%s]\n    G(%s) | 0" % (rng.choice(["int", "float"]), v, rng.choice(["1j*1j", "2, 1j*1j", "(2+1j)*(2-1j), 1", "1j**2", "(1+2j) - 2j", "2j/1j, 3"]), v)
         elif slot == "near-integer-in-int":
             new = "for int %s in [3, %s]\n    G | 0" % (v, rng.choice(["250.001", "7000.02", "160001/4", "100000.5", "1e9 + 0.5", "2.0000001"]))
     if new is None:
